@@ -115,4 +115,25 @@ theorem poisson_likelihood_stat_eq_model (fd : List α) (od : List Nat) (uoc nl 
     rw [hz]
     exact this
 
+/-- `poisson_spatial_likelihood(forecast, catalog)` (poisson_evaluations.py:226): one `poissonCell` per spatial cell, with
+    `scale = catalog.event_count / forecast.event_count`; the objects are read only through `.event_count` and
+    `.spatial_counts()`. Generic over `RealOps`. -/
+theorem poisson_spatial_likelihood_eq_model {α : Type} [RealOps α] (nCat : Nat) (nFore : α) (sc : List α) (cnt : List Nat)
+    (h : sc.length = cnt.length) :
+    Src.poisson_spatial_likelihood nCat nFore sc cnt
+      = (sc.zip cnt).map (fun p => PoissonLL.poissonCell (RealOps.div (RealOps.ofNat nCat) nFore) p.1 p.2) := by
+  simp only [Src.poisson_spatial_likelihood]
+  apply List.ext_getElem
+  · simp [h]
+  · intro i h1 h2
+    simp only [List.getElem_zipWith, List.getElem_map, List.getElem_zip, PoissonLL.poissonCell, Py.loggammaSucc]
+
+/-- the model's `poissonSpatialMap` in terms of the generated definition -/
+theorem poissonSpatialMap_eq_src {α : Type} [RealOps α] (data : List (List α)) (c : List (List Nat))
+    (h : (PoissonLL.spatialMarginal data).length = (PoissonLL.spatialMarginalN c).length) :
+    PoissonLL.poissonSpatialMap data c
+      = Src.poisson_spatial_likelihood c.flatten.sum (RealOps.sum data.flatten) (PoissonLL.spatialMarginal data)
+          (PoissonLL.spatialMarginalN c) := by
+  rw [poisson_spatial_likelihood_eq_model _ _ _ _ h]; rfl
+
 end Src
